@@ -143,8 +143,14 @@ def run(chk):
                 same = (v == expv) if not isinstance(expv, list) else (v == expv)
                 if not same:
                     chk.violation("replace-semantics", dict(kind="controls", control=c, stored=v, given=cs.get(c, "<missing>")))
-            d = sc.distributions()
-            for seg in a.segments:
+            try:
+                d = sc.distributions()
+            except Exception as e:
+                if type(e).__name__ != "SolverNotConvergedError":
+                    raise
+                chk.count("distributions-nonconverged")        # large generated deflections: not a mapping matter
+                d = None
+            for seg in (a.segments if d is not None else []):
                 if not np.allclose(d["a"][seg.name]["delta_flap"], seg._delta_flap):
                     chk.violation("distributions-delta_flap", dict(kind="controls", segment=seg.name))
             chk.case(dict(n_settings=nset, j=j, setting={k: (v if not isinstance(v, list) else "tbl/unit") for k, v in cs.items()}, i=i),
